@@ -522,14 +522,28 @@ type task struct {
 	cfg  dfs.Config
 }
 
-func buildTasks(thorough bool) []task {
-	var tasks []task
+// buildTasks enumerates the task list; only the tasks whose index keep() accepts are materialised
+// and handed to visit at once (a worker runs its own share as it is generated: the thorough list is far
+// too large to be held in memory, let alone sixteen times); visit returning false ends the visiting; n
+// is the length of the whole list.
+func buildTasks(thorough bool, keep func(i int) bool, visit func(i int, t task) bool) (n int) {
+	stopped := false
+	add := func(mk func() task) {
+		if !stopped && keep(n) {
+			if !visit(n, mk()) {
+				stopped = true
+			}
+		}
+		n++
+	}
 	for _, d := range coll.Descs {
 		for _, dc := range selfDeadlockCases(d) {
-			tasks = append(tasks, task{kind: "dl", dl: dc})
+			dc := dc
+			add(func() task { return task{kind: "dl", dl: dc} })
 		}
 		for _, ws := range wholeCases(d) {
-			tasks = append(tasks, task{kind: "whole", sc: ws})
+			ws := ws
+			add(func() task { return task{kind: "whole", sc: ws} })
 		}
 		all := opsFor(d, 2, 1, nil)
 		muts := opsFor(d, 2, 1, mutators)
@@ -546,7 +560,10 @@ func buildTasks(thorough bool) []task {
 						if !mutators[a.Method] && !mutators[b.Method] {
 							continue
 						}
-						tasks = append(tasks, task{kind: "lin", sc: &scenario{desc: d, ctor: ci, prefill: pf, threads: [][]coll.Op{{a}, {b}}}, cfg: dfs.Config{Preemptions: -1, Faults: 0, StepCap: 5000}})
+						a, b, pf, ci := a, b, pf, ci
+						add(func() task {
+							return task{kind: "lin", sc: &scenario{desc: d, ctor: ci, prefill: pf, threads: [][]coll.Op{{a}, {b}}}, cfg: dfs.Config{Preemptions: -1, Faults: 0, StepCap: 5000}}
+						})
 					}
 				}
 				if len(pf) > 2 {
@@ -568,7 +585,10 @@ func buildTasks(thorough bool) []task {
 								if !thorough && (a.Method == c2.Method || b.Method == e.Method) && a.Label != c2.Label {
 									continue
 								}
-								tasks = append(tasks, task{kind: "lin", sc: &scenario{desc: d, ctor: ci, prefill: pf, threads: [][]coll.Op{{a, b}, {c2, e}}}, cfg: dfs.Config{Preemptions: pb, Faults: 0, StepCap: 5000}})
+								a, b, c2, e, pf, ci, pb := a, b, c2, e, pf, ci, pb
+								add(func() task {
+									return task{kind: "lin", sc: &scenario{desc: d, ctor: ci, prefill: pf, threads: [][]coll.Op{{a, b}, {c2, e}}}, cfg: dfs.Config{Preemptions: pb, Faults: 0, StepCap: 5000}}
+								})
 							}
 						}
 					}
@@ -589,14 +609,17 @@ func buildTasks(thorough bool) []task {
 				for _, a := range m3 {
 					for _, b := range m3 {
 						for _, c3 := range m3 {
-							tasks = append(tasks, task{kind: "lin", sc: &scenario{desc: d, ctor: ci, prefill: pf, threads: [][]coll.Op{{a}, {b}, {c3}}}, cfg: dfs.Config{Preemptions: pc, Faults: 0, StepCap: 5000}})
+							a, b, c3, pf, ci, pc := a, b, c3, pf, ci, pc
+							add(func() task {
+								return task{kind: "lin", sc: &scenario{desc: d, ctor: ci, prefill: pf, threads: [][]coll.Op{{a}, {b}, {c3}}}, cfg: dfs.Config{Preemptions: pc, Faults: 0, StepCap: 5000}}
+							})
 						}
 					}
 				}
 			}
 		}
 	}
-	return tasks
+	return n
 }
 
 // pick keeps n operations with distinct method names first (deterministic).
@@ -638,25 +661,20 @@ func Run(c *evid.Ctx) {
 	// The thorough tier iterates the bounds: the quick tier's task list first (complete), then the
 	// larger one (unbounded preemptions for 2x2, three preemptions for 3x1, no sampling of mutators)
 	// under a wall-clock budget per worker; what the budget cuts off is reported as non-exhaustive.
-	tasks := buildTasks(false)
-	nQuick := len(tasks)
-	if c.Thorough() {
-		tasks = append(tasks, buildTasks(true)...)
-	}
-	if w := shard.Worker(); w != nil {
+	w := shard.Worker()
+	keep := func(i int) bool { return w != nil && i%w.N == w.I }
+	if w != nil {
 		outcomes := 0
 		var deadline time.Time
 		if c.Thorough() {
 			deadline = time.Now().Add(30 * time.Minute)
 		}
-		for i, t := range tasks {
-			if i%w.N != w.I {
-				continue
-			}
-			if i >= nQuick && !deadline.IsZero() {
+		larger, left := false, 0
+		run := func(i int, t task) bool {
+			if larger && !deadline.IsZero() {
 				if time.Now().After(deadline) {
-					c.NotExhaustive(fmt.Sprintf("thorough tier: worker %d stopped at its time budget with %d of %d tasks of the larger bound left (the quick tier's tasks are complete)", w.I, (len(tasks)-i)/w.N, (len(tasks)-nQuick)/w.N))
-					break
+					left++
+					return true // keep counting what is left
 				}
 				t.cfg.Deadline = deadline
 			}
@@ -669,11 +687,11 @@ func Run(c *evid.Ctx) {
 				st, v, outs, err := t.sc.check(t.cfg)
 				if err != nil {
 					c.Violation("C10:harness-error", err.Error()+" in "+t.sc.String(), nil)
-					continue
+					return true
 				}
 				if t.sc.seqBlocked {
 					c.Count("scenarios_skipped_sequentially_blocking", 1)
-					continue
+					return true
 				}
 				if st.Capped {
 					c.NotExhaustive("time budget hit inside " + t.sc.String())
@@ -696,11 +714,25 @@ func Run(c *evid.Ctx) {
 						map[string]interface{}{"engine": "E1", "scenario": t.sc.String(), "choices": v.Choices, "trace": v.Trace, "verdict": v.Verdict})
 				}
 			}
+			return true
+		}
+		buildTasks(false, keep, run)
+		if c.Thorough() {
+			larger = true
+			n2 := buildTasks(true, keep, run)
+			if left > 0 {
+				c.NotExhaustive(fmt.Sprintf("thorough tier: worker %d stopped at its time budget with %d of its %d tasks of the larger bound left (the quick tier's tasks are complete)", w.I, left, n2/w.N))
+			}
 		}
 		c.Count("distinct_outcomes", int64(outcomes))
 		return
 	}
-	c.Cov["tasks"] = len(tasks)
+	never := func(int) bool { return false }
+	nAll := buildTasks(false, never, nil)
+	if c.Thorough() {
+		nAll += buildTasks(true, never, nil)
+	}
+	c.Cov["tasks"] = nAll
 	shard.Spawn(c, 16, true)
 	// the race clause: the same kind of schedule enumeration in the -race build (race.go)
 	shard.SpawnRace(c, 16)
